@@ -815,7 +815,6 @@ pub fn gen_base(rng: &mut Rng, p: &Profile, st: &mut GenState) -> ModuleSpec {
         for _ in 0..n {
             let k = rng.range(1, 3);
             let fs: Vec<u32> = (0..k).map(|_| rng.below(total_funcs as usize) as u32).collect();
-            declared.extend(fs.iter().copied());
             let mode = match rng.below(3) {
                 0 if has_table => ElemMode::Active {
                     table: None,
@@ -831,12 +830,30 @@ pub fn gen_base(rng: &mut Rng, p: &Profile, st: &mut GenState) -> ModuleSpec {
                 1 => ElemMode::Passive,
                 _ => ElemMode::Declared,
             };
+            let mut ty = None;
             let items = if rng.chance(1, 3) {
+                let mut fs = fs;
+                if rng.chance(1, 3) {
+                    // a segment of concrete typed function references: every item has the type of the first
+                    if let Some(t) = m.func_type_of(fs[0]) {
+                        fs.retain(|f| m.func_type_of(*f) == Some(t));
+                        ty = Some((t, rng.chance(1, 2)));
+                    }
+                }
                 ElemItems::Exprs(fs.iter().map(|f| ConstE::RefFunc(*f)).collect())
             } else {
                 ElemItems::Funcs(fs)
             };
-            m.elems.push(ElemSpec { mode, items });
+            let mut mode = mode;
+            if let (Some(_), ElemMode::Active { table, .. }) = (&ty, &mut mode) {
+                // a typed active segment is always written with an explicit table index
+                *table = Some(0);
+            }
+            match &items {
+                ElemItems::Funcs(v) => declared.extend(v.iter().copied()),
+                ElemItems::Exprs(v) => declared.extend(v.iter().filter_map(|c| if let ConstE::RefFunc(f) = c { Some(*f) } else { None })),
+            }
+            m.elems.push(ElemSpec { mode, items, ty });
         }
         // declarative segment so that ref.func in code validates
         if rng.chance(2, 3) {
@@ -846,6 +863,7 @@ pub fn gen_base(rng: &mut Rng, p: &Profile, st: &mut GenState) -> ModuleSpec {
             m.elems.push(ElemSpec {
                 mode: ElemMode::Declared,
                 items: ElemItems::Funcs(fs),
+                ty: None,
             });
         }
     }
